@@ -100,6 +100,22 @@ void *cgi_realloc(void *oldbuf, size_t bytes)
     return buf;
 }
 
+/* number of elements of an array with these dimensions; 0 when a dimension
+   is not positive or the count (times the largest element size, 16 bytes)
+   does not fit a cgsize_t -- the dimensions come from the file */
+static cgsize_t cgi_element_count(int ndim, const cgsize_t *dim_vals)
+{
+    const cgsize_t limit = (cgsize_t)((~(cgulong_t)0 >> 1) / 16);
+    cgsize_t size = 1;
+    int n;
+
+    for (n = 0; n < ndim; n++) {
+        if (dim_vals[n] <= 0 || size > limit / dim_vals[n]) return 0;
+        size *= dim_vals[n];
+    }
+    return size;
+}
+
 /***********************************************************************\
  *    Read CGNS file and store in internal data structures         *
 \***********************************************************************/
@@ -3440,8 +3456,7 @@ int cgi_read_ptset(double parent_id, cgns_ptset *ptset)
     else {
      /* read points to calculate size_of_patch */
         int i;
-        cgsize_t size=1;
-        for (i=0; i<ndim; i++) size*=dim_vals[i];
+        cgsize_t size = cgi_element_count(ndim, dim_vals);
         if (size<=0) {
             cgi_error("Error reading node %s",ptset->name);
             return CG_ERROR;
@@ -6730,7 +6745,7 @@ int cgi_read_node_data(double node_id, char_33 data_type,
     }
 
     /* allocate data */
-    for (n = 0; n < (*ndim); n++) size *= dim_vals[n];
+    size = cgi_element_count(*ndim, dim_vals);
     if (size <= 0) {
         cgi_error("Error reading node data");
         return CG_ERROR;
@@ -6790,7 +6805,7 @@ int cgi_read_node(double node_id, char_33 name, char_33 data_type,
     if (!data_flag) return CG_OK;
 
      /* allocate data */
-    for (n=0; n<(*ndim); n++) size*=dim_vals[n];
+    size = cgi_element_count(*ndim, dim_vals);
     if (size<=0) {
         cgi_error("Error reading node %s",name);
         return CG_ERROR;
